@@ -104,6 +104,8 @@ def cases(tier, seed):
     for t in TYPES_DATA + ["TIME_OF_DAY"]:
         for chunk in range(0, len(lens), 8):
             out.append({"part": "matrix", "type": t, "lens": lens[chunk:chunk + 8], "seed": seed})
+    for a in range(len(PAIR_ADDRS)):
+        out.append({"part": "address-pairs", "first": a})
     return out
 
 
@@ -356,7 +358,85 @@ class _MatrixSim(ServerSim):
         return rs
 
 
+# addresses chosen so that common ways of folding (index, sub-index) into one key collide: index ratios of 2^k,
+# index low byte vs sub-index, index + sub-index sums, first / last sub-index, neighbours; the last three do not exist
+PAIR_ADDRS = [(0x3000, 0), (0x3000, 1), (0x3000, 2), (0x3000, 8), (0x6000, 0), (0x6000, 1), (0x6000, 4), (0x4000, 0), (0x4000, 1), (0x8000, 0),
+              (0x2000, 0), (0x2001, 0), (0x2100, 0), (0x2021, 0), (0x2020, 1), (0x2FFF, 0), (0x3000, 0xFF), (0xC000, 0), (0x3001, 0),
+              (0x6000, 2)]
+PAIR_MISSING = {(0xC000, 0), (0x3001, 0), (0x6000, 2)}
+
+
+def _pair_entries():
+    es = []
+    for i, s_ in PAIR_ADDRS:
+        if (i, s_) in PAIR_MISSING:
+            continue
+        rec = sum(1 for a in PAIR_ADDRS if a[0] == i and a not in PAIR_MISSING) > 1 or s_ > 0
+        e = dict(index=i, name="o%04x_%02x" % (i, s_), type="UNSIGNED32", default=(i << 8 | s_) ^ 0x5A5A5A5A)
+        if rec:
+            e.update(sub=s_, kind="rec", parent_name="R%04x" % i)
+        es.append(e)
+    return es
+
+
+def run_pairs(case, st):
+    """Two accesses to different addresses of one fresh node: each is answered for ITS address (no aliasing between
+    entries whose index / sub-index fold to the same key), in both orders and with a write in between."""
+    entries = _pair_entries()
+    a = PAIR_ADDRS[case["first"]]
+    for b in PAIR_ADDRS:
+        if a == b:
+            continue
+        for op in ("ul-ul", "dl-ul", "ul-dl-ul"):
+            sim = _MatrixSim(entries, None)
+            st.evaluations += 1
+            st.traces += 1
+            st.nontrivial_n += 1
+            rc = dict(case, b=list(b), op=op)
+
+            def upload(k):
+                want = sim.ref.current_value(k) if k not in PAIR_MISSING else None
+                try:
+                    got = sdo_client.upload(sim.send_strict, k[0], k[1])
+                except sdo_client.ProtocolViolation as e:
+                    return f"protocol violation {e}"
+                if want is None:
+                    return None if isinstance(got, sdo_client.Abort) else f"missing entry answered with {got!r}"
+                return None if isinstance(got, bytes) and bytes(got) == want else f"{k}: want {want.hex()} got {got!r}"
+
+            def download(k, data):
+                try:
+                    got = sdo_client.download(sim.send_strict, k[0], k[1], data, "exp")
+                except sdo_client.ProtocolViolation as e:
+                    return f"protocol violation {e}"
+                if k in PAIR_MISSING:
+                    return None if isinstance(got, sdo_client.Abort) else f"write to a missing entry accepted: {got!r}"
+                if got is not None:
+                    return f"write refused: {got!r}"
+                sim.ref.store[k] = data
+                return None
+            steps = {"ul-ul": [("ul", a), ("ul", b)], "dl-ul": [("dl", a), ("ul", b), ("ul", a)],
+                     "ul-dl-ul": [("ul", a), ("dl", b), ("ul", a), ("ul", b)]}[op]
+            for kind, k in steps:
+                st.transitions += 1
+                bad = upload(k) if kind == "ul" else download(k, struct.pack("<L", 0x11223300 | (k[1] & 0xFF)))
+                if bad:
+                    st.violation(f"C02:address-pairs:{kind}:{'missing' if k in PAIR_MISSING else 'present'}-after-{'missing' if (a if k == b else b) in PAIR_MISSING else 'present'}",
+                                 rc, "each address answered for itself", bad)
+                    break
+            else:
+                store = {k_: v for k_, v in sim.real_store().items()}
+                want_store = {k_: v for k_, v in sim.ref.store.items()}
+                if store != want_store:
+                    st.violation("C02:address-pairs:store", rc, {str(k_): v.hex() for k_, v in want_store.items()},
+                                 {str(k_): v.hex() for k_, v in store.items()})
+                else:
+                    st.outcome("address pair ok")
+
+
 def run_case(case, st):
+    if case["part"] == "address-pairs":
+        return run_pairs(case, st)
     if case["part"] == "bfs":
         run_bfs(case, st)
     else:
